@@ -22,6 +22,7 @@ const (
 	KPtrField // pointer to a scalar location: component F indexed by ref T
 	KPtrElem  // pointer to an array element: array ref T, absolute index I
 	KLocalObj // non-escaping local struct: fields are local components with prefix F
+	KGArr     // ghost array (Array Int Int): T is the array term
 	KUnit
 )
 
